@@ -716,9 +716,13 @@ class SpecGen:
       if d.get('mn') is not None and d.get('mx') is not None and d['mn'] > d['mx']:
         d['mx'] = d['mn']
       if k == 'tuple':
-        if r.chance(0.15):
-          # variable -> fixed
+        if r.chance(0.3):
+          # variable -> fixed; the length is steered to the variable tuple's own bounds (just outside / inside)
           n = r.randint(1, 3)
+          if d.get('mx') is not None and r.chance(0.5):
+            n = max(1, d['mx'] + r.choice([1, 1, 0]))
+          elif d.get('mn') and r.chance(0.4):
+            n = max(1, d['mn'] - 1)
           e = d.pop('elem')
           d.pop('mn', None)
           d.pop('mx', None)
@@ -826,6 +830,22 @@ def frozen_pair(g):
   if r.chance(0.3):
     child = {'k': 'dict', 'fields': [[['c', 'x'], child]], 'n': 0}
     base = {'k': 'dict', 'fields': [[['c', 'x'], base]], 'n': 0}
+  return child, base
+
+
+def tuple_pair(g):
+  """A (child, base) pair: a fixed-length tuple over a variable-length one, the length steered to the
+  base's bounds (min - 1, min, max, max + 1), element specs related."""
+  r = g.r
+  elem = g.spec(0)
+  mn = r.choice([None, 0, 1, 2])
+  mx = r.choice([None, 1, 2, 3])
+  if mn is not None and mx is not None and mn >= mx:
+    mx = mn + 1
+  base = {'k': 'tuple', 'elem': elem, 'mn': mn, 'mx': mx, 'n': 0}
+  cands = [n for n in ((mn or 0) - 1, (mn or 0), mx, (mx + 1) if mx is not None else None, r.randint(1, 3)) if n is not None and n >= 1]
+  n = r.choice(cands)
+  child = {'k': 'tuple', 'elems': [g.mutate(elem) if r.chance(0.3) else copy.deepcopy(elem) for _ in range(n)], 'n': 0}
   return child, base
 
 
